@@ -1,6 +1,7 @@
 """Case generators for the commands (C08-C12, C16, C18, C20).  The commands read the wall
 clock themselves, so times are written relative to the clock at the start of the case ("@-5");
 the driver resolves them and reports the clock each command printed."""
+import re
 from common import *
 
 CLI_LAYOUTS = {
@@ -608,6 +609,9 @@ def gen_c12(rnd, n, thorough=False):
             if kind == 'syntax':
                 q = rnd.pick([q.replace('&', ';', 1), q + '&%zz=1', q + '&x=%', '&&' + q + '&', q + '&novalue', q.replace('=', '%3D', 1), q + '&a=b=c', q.replace('file=', 'FILE='), '', q + '&%66ile=zzz'])
             lines.append('clirawview q=%s' % (q or '-'))
+            if rnd.chance(0.4):
+                # the raw dump endpoint reads file and retention only (the other parameters are ignored)
+                lines.append('clirawdump q=%s' % (re.sub(r'TS\([^)]*\)', 'x', q) or '-'))
         for _ in range(2):
             nm = rnd.pick(names + ['sub dir/x y.wsp'.replace(' ', '_'), 'ü.wsp'])
             lines.append('cliquerycap src=%s archive=%d from=%s until=%s' % (('i1/' + nm).encode('utf-8').hex(), rnd.pick([-1, 0, 1, 7, -5, 2 ** 40]),
